@@ -4,6 +4,7 @@ import (
 	"fmt"
 	"os"
 	"strings"
+	"sync"
 
 	"verif/harness/internal/vrun"
 )
@@ -27,13 +28,27 @@ func Run(ctx *vrun.Ctx) error {
 	}{
 		{"parse", runSigParse},
 		{"verify", runSigVerify},
+		{"musig", runMusig},
 	}
-	for _, p := range parts {
+	// the three specifications are independent: run them side by side
+	errs := make([]error, len(parts))
+	var wg sync.WaitGroup
+	for i, p := range parts {
 		if !want(p.name) {
 			continue
 		}
-		if err := p.run(ctx); err != nil {
-			return fmt.Errorf("%s: %w", p.name, err)
+		wg.Add(1)
+		go func(i int, name string, run func(*vrun.Ctx) error) {
+			defer wg.Done()
+			if err := run(ctx); err != nil {
+				errs[i] = fmt.Errorf("%s: %w", name, err)
+			}
+		}(i, p.name, p.run)
+	}
+	wg.Wait()
+	for _, err := range errs {
+		if err != nil {
+			return err
 		}
 	}
 	ctx.Ev.Coverage.Rule = "TLC enumerates every case / behaviour of the three specifications; each is concretised and replayed into btcec"
